@@ -122,6 +122,9 @@ def _remove_unused_nodes_in_graph_like(
                 if _remove_unused_optional_outputs(node, graph_outputs, onnx_opset_version):
                     modified = True
             for attr in node.attributes.values():
+                if attr.is_ref():
+                    # A reference attribute holds no graph to clean up
+                    continue
                 if attr.type == ir.AttributeType.GRAPH:
                     sub_count, sub_modified = _remove_unused_nodes_in_graph_like(
                         attr.as_graph()
